@@ -69,6 +69,13 @@ def cases(tier):
         for src in (f"10 {b1}\n20 {b2}", f"10 {b1}:{b2}"):
             out.append({"fmt": "forms", "kind": f["name"], "form": f, "text": src, "nums": n1, "strs": s1, "twice": (n2, s2),
                         "req": f"form {f['name']} {hexs(src.encode())}"})
+        # literal operands that are also spelled in a DATA statement with an empty item (whose numbers become strings)
+        if nnum:
+            nl = [str(k + 1) for k in range(nnum)]
+            sl = [STR_OPERANDS[0].format(k=k + 1) for k in range(nstr)]
+            src = "10 " + instantiate(f["template"], nl, sl) + "\n20 DATA 1,,2,3,4,5,6,7,8,9\n30 READ P,Q"
+            out.append({"fmt": "forms", "kind": f["name"], "form": f, "text": src, "nums": nl, "strs": sl,
+                        "req": f"form {f['name']} {hexs(src.encode())}"})
         for a, b, nums, strs in combos:
             body = instantiate(f["template"], nums, strs)
             # layouts: as written; blanks after commas and a blank + another statement behind it; trailing blank
